@@ -167,6 +167,17 @@ Theorem C13_torn_create_preserves_old_partial :
 Proof. exact crash_create_old_preserved. Qed.
 Print Assumptions C13_torn_create_preserves_old_partial.
 
+(** Repaired (fix: insert entries with id 0 are not indexed, in execEntry and compactIndexTo): a
+    create torn inside its flag+id bytes, with ids below 256, is decoded as an insert entry for
+    id 0 and that entry is ignored: index and seq are exactly what they were. *)
+Theorem C13_torn_id_zero_entry_not_indexed :
+  forall p st body m,
+    PInv p st -> N.of_nat (length body) < 128 -> seq st < 256 -> (m < 8)%nat ->
+    let st' := crash_append p st (Ins (seq st) (mk_key body)) (S m) in
+    ix st' = ix st /\ seq st' = seq st.
+Proof. exact crash_create_in_id_bytes_index_unchanged. Qed.
+Print Assumptions C13_torn_id_zero_entry_not_indexed.
+
 Theorem C13_torn_nothing_written_is_noop :
   forall p st e, PInv p st -> crash_append p st e 0 = st.
 Proof. exact crash_create_zero. Qed.
